@@ -276,3 +276,38 @@ macro_rules! c16_lazy_free {
 }
 c16_lazy_free!(c16_lazy_free_n3, quick, 6, 3);
 c16_lazy_free!(c16_lazy_free_n4, thorough, 7, 4);
+
+// ---------------------------------------------------------------- token lifetime (known finding)
+zv_harness! {
+    name: c16_token_outlives_manager,
+    prop: "C16",
+    tier: quick,
+    unwind: 4,
+    stubs: [
+        alloc::fmt::format => crate::common::stubs::fmt_format,
+        std::rt::thread_cleanup => crate::common::stubs::noop,
+        std::thread::current::current => crate::common::stubs::thread_current,
+        std::thread::Thread::id => crate::common::stubs::thread_id,
+        std::time::Instant::now => crate::common::stubs::instant_now,
+        std::time::Instant::elapsed => crate::common::stubs::instant_elapsed
+    ],
+    targets: "fsa::version_sync::VersionManager::acquire_reader_token / acquire_writer_token, ReaderToken/WriterToken::drop -> TokenReleaseCallback::release (raw *const VersionManager)",
+    bounds: "one boxed manager; one token (reader or writer: solver's choice) acquired through the safe API; the manager is dropped before the token",
+    oracle: "releasing a token after the manager that issued it has gone away never touches freed memory (CBMC pointer checks on the release path)",
+    flags: [twin],
+    kf: "c16_token_outlives_manager",
+    body: {
+        let m = Box::new(VersionManager::new(ConcurrencyLevel::OneWriteMultiRead));
+        let want_writer: bool = vany();
+        let (r, w) = if want_writer {
+            (None, m.acquire_writer_token().ok())
+        } else {
+            (m.acquire_reader_token().ok(), None)
+        };
+        drop(m);
+        // safe code: the tokens carry no lifetime tied to the manager
+        drop(r);
+        drop(w);
+        zcover!(true, "end reached");
+    }
+}
